@@ -96,7 +96,9 @@ def r1(ctx, r):
     decision_vars = {}
     for b in conds:
         for x in walk(b.cond):
-            if x.get("k") == "var" and x.get("parm") is None and x["n"] not in ("attempt",):
+            # (the caught exception object is fresh in every handler entry: a condition may read it directly, e.g. when the
+            # named flag it was stored in is spelled out in the `if`)
+            if x.get("k") == "var" and x.get("parm") is None and x["n"] not in ("attempt", excvar):
                 decision_vars[x["n"]] = x.get("d")
     r.instance(max(1, len(decision_vars)))
     for name, d in sorted(decision_vars.items()):
@@ -352,12 +354,14 @@ def r5(ctx, r):
                      % (k, conj), okdesc="reusable ⇒ %s" % k)
         r.instance()
         r.expect(not any("||" in c for c in conj), e_, None, "reuse disjunction", "the reuse decision contains a disjunction: %s" % conj, okdesc="pure conjunction")
-        rb = [b for b in e_.blocks.values() if b.cond is not None and key_of(b.cond) == "reusable"]
+        # (the branch on the named decision; Block.cond would show the decision's initialiser in its place)
+        rb = [b for b in e_.blocks.values() if b.cond is not None and key_of(b._raw_cond()) == "reusable"]
         r.instance()
         ok = len(rb) == 1
         if ok:
-            els_f = _reach_until_ret(e_, rb[0].succs[1])
-            els_t = _reach_until_ret(e_, rb[0].succs[0])
+            _c, _st, _sf = common.branch(rb[0])
+            els_f = _reach_until_ret(e_, _sf)
+            els_t = _reach_until_ret(e_, _st)
             ok = any(x in drops for x in els_f[:6])
             # keeping it warm failing → drop
             sm = [x for x in els_t if x.kind == "stmt" and x.node.get("k") == "mcall" and last(x.node.get("callee", "")) == "setReadMode"]
